@@ -558,8 +558,10 @@ def run(ck: Check):
             ck.case(key=("corpus", f.name), bucket="corpus")
             if case.get("what") == "gmrf":
                 R.gmrf(case)
+            elif case.get("what") == "suffstats-batched":
+                R.suffstats_batched(rng, None, 0, given=case)
         sizes = (list(range(2, 13)) + [20, 35, 50]) if not thorough else list(range(2, 51))
-        reps = 1 if not thorough else 3
+        reps = 2 if not thorough else 8
         for _ in range(reps):
             for n in sizes:
                 for mode in ("P", "W", "T0", "T1"):
@@ -579,7 +581,7 @@ def run(ck: Check):
         for n in (list(range(2, 10)) + [20, 50] if not thorough else list(range(2, 51))):
             R.constant_integrated(rng, n, impl_in_loop=(n <= 3))
         ss_sizes = (list(range(2, 13)) + [20, 35, 50]) if not thorough else list(range(2, 51))
-        for _ in range(2 if not thorough else 4):
+        for _ in range(3 if not thorough else 10):
             for n in ss_sizes:
                 R.suffstats(rng, "skygrid", n)
                 R.suffstats(rng, "skyride", n)
